@@ -51,7 +51,9 @@ func (ser *MultiEpoch) getGsfaReadersInEpochDescendingOrderForSlotRange(ctx cont
 	startEpoch := slottools.CalcEpochForSlot(startSlot)
 	endEpoch := slottools.CalcEpochForSlot(endSlot)
 
-	epochs := make([]*Epoch, 0, endEpoch-startEpoch+1)
+	// NOTE: startSlot and endSlot come from the client; the capacity must not be derived from them
+	// (a reversed or huge range would make the capacity wrap around or exceed what can be allocated).
+	epochs := make([]*Epoch, 0, len(ser.epochs))
 	for _, epoch := range ser.epochs {
 		if epoch.Epoch() >= startEpoch && epoch.Epoch() <= endEpoch {
 			epochs = append(epochs, epoch)
